@@ -44,7 +44,7 @@ def run_shard(module: str, pid: str, tier: str, seed: int, index: int, total: in
     env['HOME'] = home
     env['TMPDIR'] = home
     try:
-        proc = subprocess.run(cmd, env=env, cwd=core.VERIF, capture_output=True, text=True, timeout=timeout, check=False)
+        proc = subprocess.run(cmd, env=env, cwd=home, capture_output=True, text=True, timeout=timeout, check=False)
     except subprocess.TimeoutExpired:
         return index, None, f'shard {index} watchdog fired after {timeout}s'
     if not os.path.exists(out):
